@@ -194,6 +194,7 @@ type Runner struct {
 	Model  map[string]refwitness.LogState
 	Sess   map[int]*gen.Session
 	RawSQL bool // additionally snapshot the table through the pool
+	Pool   []gen.PoolEntry
 }
 
 // NewRunner creates a witness over a fresh store.
@@ -214,7 +215,7 @@ func NewRunner(u *gen.Universe, keys *WitKeys, st *Store, wrap func(persistence.
 	rn := &Runner{U: u, W: w, Store: st, Keys: keys, Model: map[string]refwitness.LogState{}, Sess: map[int]*gen.Session{}}
 	for _, l := range u.Logs {
 		rn.Probe = append(rn.Probe, l.ID)
-		rn.Sess[l.Idx] = &gen.Session{WitnessSigners: len(keys.Signers)}
+		rn.Sess[l.Idx] = &gen.Session{WitnessSigners: len(keys.Signers), Pool: &rn.Pool}
 	}
 	rn.Probe = append(rn.Probe, "unconfigured-id", refnote.LogID("unconfigured origin"), u.Logs[0].Origin)
 	return rn, nil
@@ -329,6 +330,9 @@ func (rn *Runner) Do(q *gen.Request, before *Snapshot) *Step {
 		rn.Model[q.LogID] = refwitness.LogState{Has: v.Has, Size: v.Size, Root: v.Root}
 		if st.Err == nil {
 			rn.Sess[l.Idx].LastProof = q.Proof
+			if len(rn.Pool) < 64 {
+				rn.Pool = append(rn.Pool, gen.PoolEntry{Log: l.Idx, Raw: q.CP}, gen.PoolEntry{Log: l.Idx, Raw: st.Ret})
+			}
 		}
 	}
 	_ = next
